@@ -76,3 +76,173 @@ theorem leader_outside_within (c : Committee) (hw : c.WF) (h : c.keys ≠ []) (f
   omega
 
 end HS
+
+namespace HS
+
+theorem length_filter_split (p : Nat → Bool) (l : List Nat) :
+    l.length = (l.filter p).length + (l.filter (fun x => !p x)).length := by
+  induction l with
+  | nil => simp
+  | cons a l ih =>
+    simp only [List.filter_cons]
+    by_cases h : p a = true
+    · simp [h]; omega
+    · simp [h]; omega
+
+/-- Counting: a map from `l` into a duplicate-free `R` whose fibres have at most `k` elements. -/
+theorem length_le_of_fibres (k : Nat) (f : Nat → Nat) : ∀ (R l : List Nat), R.Nodup →
+    (∀ x ∈ l, f x ∈ R) → (∀ y ∈ R, (l.filter (fun x => f x == y)).length ≤ k) →
+    l.length ≤ k * R.length := by
+  intro R
+  induction R with
+  | nil =>
+    intro l _ hin _
+    cases l with
+    | nil => simp
+    | cons a l => exact absurd (hin a (by simp)) (by simp)
+  | cons y R ih =>
+    intro l hnd hin hfib
+    have hnd' := List.nodup_cons.mp hnd
+    have hsplit := length_filter_split (fun x => f x == y) l
+    have hrest := ih (l.filter (fun x => !(f x == y))) hnd'.2
+      (by
+        intro x hx
+        have hx' := List.mem_filter.mp hx
+        have hne : f x ≠ y := by simpa using hx'.2
+        rcases List.mem_cons.mp (hin x hx'.1) with h | h
+        · exact absurd h hne
+        · exact h)
+      (by
+        intro z hz
+        have hzy : z ≠ y := by intro e; subst e; exact hnd'.1 hz
+        have : ((l.filter (fun x => !(f x == y))).filter (fun x => f x == z)).length ≤ (l.filter (fun x => f x == z)).length := by
+          exact ((List.filter_sublist (l := l) (p := fun x => !(f x == y))).filter (fun x => f x == z)).length_le
+        exact Nat.le_trans this (hfib z (by simp [hz])))
+    have hy := hfib y (by simp)
+    simp only [List.length_cons]
+    rw [hsplit]
+    have : k * (R.length + 1) = k * R.length + k := by rw [Nat.mul_add, Nat.mul_one]
+    omega
+
+end HS
+
+namespace HS
+
+theorem leader_congr_mod (c : Committee) (r r' : Nat) (h : r % c.keys.length = r' % c.keys.length) :
+    c.leader r = c.leader r' := by
+  unfold Committee.leader Committee.leader?
+  rw [leaderIndex_eq, leaderIndex_eq, h]
+
+/-- `i + k ≡ y (mod n)` with `i < n`, `k < 3` pins `i` down. -/
+theorem residue_back (n i k y : Nat) (hn : 0 < n) (hi : i < n) (hk : k < 3) (h : (i + k) % n = y) :
+    i = (y + 3 * n - k) % n := by
+  have hdiv := Nat.div_add_mod (i + k) n
+  rw [h] at hdiv
+  -- i + k = n * q + y
+  have hq : (i + k) / n ≤ 3 := by
+    have : (i + k) / n ≤ (i + k) := Nat.div_le_self _ _
+    have h1 : (i + k) / n * n ≤ i + k := Nat.div_mul_le_self _ _
+    apply Classical.byContradiction
+    intro hc
+    have h4 : 4 ≤ (i + k) / n := by omega
+    have : 4 * n ≤ (i + k) / n * n := Nat.mul_le_mul_right n h4
+    omega
+  have hy : y < n := by rw [← h]; exact Nat.mod_lt _ hn
+  have e : y + 3 * n - k = i + (3 - (i + k) / n) * n := by
+    have hmul : n * ((i + k) / n) + (3 - (i + k) / n) * n = 3 * n := by
+      rw [Nat.mul_comm n, ← Nat.add_mul]
+      congr 1; omega
+    omega
+  rw [e, Nat.add_mul_mod_self_right, Nat.mod_eq_of_lt hi]
+
+/-- THREE CONSECUTIVE NON-FAULTY LEADERS.  With `n ≥ 3m + 1` authorities, any `m` of them being
+faulty, every window of `n` consecutive rounds contains three consecutive rounds none of which is led
+by a faulty authority — the three rounds a 2-chain commit needs. -/
+theorem three_consecutive_outside (c : Committee) (hw : c.WF) (h : c.keys ≠ []) (faulty : List Nat)
+    (hm : 3 * faulty.length < c.keys.length) (r0 : Nat) :
+    ∃ i, i < c.keys.length ∧ c.leader (r0 + i) ∉ faulty ∧ c.leader (r0 + i + 1) ∉ faulty ∧
+      c.leader (r0 + i + 2) ∉ faulty := by
+  have hn : 0 < c.keys.length := List.length_pos_iff.mpr h
+  apply Classical.byContradiction
+  intro hno
+  let n := c.keys.length
+  let isF : Nat → Bool := fun j => decide (c.leader (r0 + j) ∈ faulty)
+  have hcover : ∀ i, i < n → isF i = true ∨ isF (i + 1) = true ∨ isF (i + 2) = true := by
+    intro i hi
+    apply Classical.byContradiction
+    intro hc
+    apply hno
+    refine ⟨i, hi, ?_, ?_, ?_⟩ <;> intro hmem <;> apply hc
+    · left; simp [isF, hmem]
+    · right; left; simp only [isF, decide_eq_true_eq]; rw [← Nat.add_assoc]; exact hmem
+    · right; right; simp only [isF, decide_eq_true_eq]; rw [← Nat.add_assoc]; exact hmem
+  have isF_mod : ∀ x, isF (x % n) = isF x := by
+    intro x
+    simp only [isF]
+    congr 2
+    apply leader_congr_mod
+    show (r0 + x % n) % n = (r0 + x) % n
+    rw [Nat.add_mod, Nat.mod_mod, ← Nat.add_mod]
+  let ρ : Nat → Nat := fun i => if isF i then i % n else if isF (i + 1) then (i + 1) % n else (i + 2) % n
+  let R := (List.range n).filter isF
+  have hRnd : R.Nodup := List.nodup_range.filter _
+  have hρ : ∀ i ∈ List.range n, ρ i ∈ R := by
+    intro i hi
+    have hi' : i < n := List.mem_range.mp hi
+    simp only [ρ, R]
+    rcases hcover i hi' with h0 | h1 | h2
+    · simp only [h0, if_true]
+      exact List.mem_filter.mpr ⟨List.mem_range.mpr (Nat.mod_lt _ hn), by rw [isF_mod]; exact h0⟩
+    · by_cases h0 : isF i = true
+      · simp only [h0, if_true]
+        exact List.mem_filter.mpr ⟨List.mem_range.mpr (Nat.mod_lt _ hn), by rw [isF_mod]; exact h0⟩
+      · simp only [h0, h1, if_true, Bool.false_eq_true, if_false]
+        exact List.mem_filter.mpr ⟨List.mem_range.mpr (Nat.mod_lt _ hn), by rw [isF_mod]; exact h1⟩
+    · by_cases h0 : isF i = true
+      · simp only [h0, if_true]
+        exact List.mem_filter.mpr ⟨List.mem_range.mpr (Nat.mod_lt _ hn), by rw [isF_mod]; exact h0⟩
+      · by_cases h1 : isF (i + 1) = true
+        · simp only [h0, h1, if_true, Bool.false_eq_true, if_false]
+          exact List.mem_filter.mpr ⟨List.mem_range.mpr (Nat.mod_lt _ hn), by rw [isF_mod]; exact h1⟩
+        · simp only [h0, h1, Bool.false_eq_true, if_false]
+          exact List.mem_filter.mpr ⟨List.mem_range.mpr (Nat.mod_lt _ hn), by rw [isF_mod]; exact h2⟩
+  -- |R| ≤ |faulty|
+  have hRlen : R.length ≤ faulty.length := by
+    have hmapnd : (R.map (fun j => c.leader (r0 + j))).Nodup := by
+      apply nodup_map_of_inj_on _ _ hRnd
+      intro x hx y hy e
+      have hx' := List.mem_range.mp (List.mem_filter.mp hx).1
+      have hy' := List.mem_range.mp (List.mem_filter.mp hy).1
+      exact leaders_distinct c hw h r0 x y hx' hy' e
+    have := nodup_subset_length_le _ faulty hmapnd (by
+      intro x hx
+      obtain ⟨j, hj, rfl⟩ := List.mem_map.mp hx
+      have := (List.mem_filter.mp hj).2
+      simpa [isF] using this)
+    simpa using this
+  -- fibres have at most three elements
+  have hfib : ∀ y ∈ R, ((List.range n).filter (fun x => ρ x == y)).length ≤ 3 := by
+    intro y _
+    have hnd : ((List.range n).filter (fun x => ρ x == y)).Nodup := List.nodup_range.filter _
+    have := nodup_subset_length_le _ [(y + 3 * n - 0) % n, (y + 3 * n - 1) % n, (y + 3 * n - 2) % n] hnd (by
+      intro i hi
+      have hi' := List.mem_filter.mp hi
+      have hin : i < n := List.mem_range.mp hi'.1
+      have hρy : ρ i = y := by simpa using hi'.2
+      simp only [ρ] at hρy
+      simp only [List.mem_cons, List.mem_nil_iff, or_false]
+      by_cases h0 : isF i = true
+      · simp only [h0, if_true] at hρy
+        left; exact residue_back n i 0 y hn hin (by omega) (by simpa using hρy)
+      · by_cases h1 : isF (i + 1) = true
+        · simp only [h0, h1, if_true, Bool.false_eq_true, if_false] at hρy
+          right; left; exact residue_back n i 1 y hn hin (by omega) hρy
+        · simp only [h0, h1, Bool.false_eq_true, if_false] at hρy
+          right; right; exact residue_back n i 2 y hn hin (by omega) hρy)
+    simpa using this
+  have := length_le_of_fibres 3 ρ R (List.range n) hRnd hρ hfib
+  simp only [List.length_range] at this
+  have : n ≤ 3 * faulty.length := Nat.le_trans this (Nat.mul_le_mul_left 3 hRlen)
+  omega
+
+end HS
